@@ -87,7 +87,7 @@ CFG = {
         "(the code removes nodes under the write lock; a destructor that re-enters would deadlock — not reachable from the op grammar)",
         "memos read signals only and effects read memos untracked (the propagation protocol is C01/C02/C09's subject)",
         "signal writes from bodies are monotone (`if s < v { s.set(v) }`, v <= 3 in generated cases) so that every cascade of immediate effects terminates; "
-        "no writes inside memos, inside `new_mut` functions (they panic on recursion) and while an AsyncDerived is being constructed; "
+        "no writes inside memos and inside `new_mut` functions (they panic on recursion); "
         "scoped tasks are not spawned from inside a memo or a `new_scoped` effect (their owners are dropped by an arena value / a cleanup closure, "
         "outside the reference count the model keeps for owners)",
     ],
